@@ -4,5 +4,8 @@ CONSTANTS
   Seed = @SEED@
   Target = @TARGET@
   Emit = @EMIT@
+  Mode = "@MODE@"
+  BDims = @BDIMS@
+  BLd = @BLD@
 INVARIANTS TypeOK CaseOK
 CHECK_DEADLOCK FALSE
